@@ -83,11 +83,15 @@ Stamp(s) == [ct |-> Trunc10ms(s.clk), mt |-> Trunc2s(s.clk), ad |-> DateOf(s.clk
 NsResult(s, e, o, dpath) ==
    LET r == e.r
        short == o.space.par # -1 /\ SpaceShort(s.raw, s.D, dpath, o.space)
-   IN IF r.k = "ok" THEN Tag("C01.result", o.mand = {})
+       nameErrs == {"InvalidFileNameLength", "UnsupportedFileNameCharacter"}
+       \* C15: the name decides - it must be rejected with a name error / must not be rejected with one
+       c15(bad) == IF bad /\ ((o.mand # {} /\ o.mand \subseteq nameErrs) \/ (r.k = "err" /\ r.e \in nameErrs))
+                   THEN {"C15.accept"} ELSE {}
+   IN IF r.k = "ok" THEN Tag("C01.result", o.mand = {}) \cup c15(o.mand # {})
       ELSE IF r.k = "err" THEN
            IF r.e \in o.mand THEN {}
            ELSE IF r.e = "NotEnoughSpace" /\ o.mand = {} /\ o.space.par # -1 THEN Tag("C05.nospace_legit", short)
-           ELSE {"C01.result"}
+           ELSE {"C01.result"} \cup c15(TRUE)
       ELSE {"C01.result"}
 
 \* alias of the entry named nm (units) in the directory with fold path dpath, taken from the post state
@@ -139,7 +143,10 @@ NsStep(s, e, Dp) ==
            ELSE IF o.fx.t = "open_or" THEN
                 IF e.r.k = "ok" THEN [m |-> AddDirHandle(m, h, o.fx.node), v |-> {}, ooc |-> FALSE]
                 ELSE [m |-> m, v |-> Tag("C01.result", e.r.k = "err" /\ e.r.e \in o.fx.errs), ooc |-> FALSE]
-           ELSE LET v == NsResult(s, e, o, <<>>) IN
+           ELSE LET v0 == NsResult(s, e, o, <<>>)
+                    \* C15: a lookup matches exactly the entries whose long name or alias folds to the same key
+                    v == IF v0 = {} THEN {} ELSE v0 \cup {IF o.mand = {} THEN "C15.lookup_hit" ELSE "C15.lookup_miss"}
+                IN
                 IF e.r.k # "ok" \/ v # {} THEN [m |-> m, v |-> v, ooc |-> FALSE]
                 ELSE [m |-> IF kind = "f" THEN AddFileHandle(m, h, o.fx.node) ELSE AddDirHandle(m, h, o.fx.node), v |-> {}, ooc |-> FALSE]
      [] e.op = "remove" ->
@@ -270,6 +277,8 @@ TreeChecks(s, e, m, D, rv, sv, svok) ==
                            \cup Tag("C04.view_size", \A i \in 1..Len(rvT) : (rvT[i].k = "f" /\ rvT[i].p \notin lag) => (rvT[i].sz = Len(rvT[i].c) * s.U /\ ~Has(rvT[i], "cerr")))
                            \cup Tag("C18.stamps", TimesSkip(ViewTimes(rvT), lag) = mt)
              ELSE {"C04.remount"})
+       \cup (IF rv.ok THEN Tag("C15.lossless", {f.p : f \in ViewFacts(rvT, FALSE)} = {f.p : f \in mf}) ELSE {})
+       \cup (IF svok THEN Tag("C15.no_side_effect", ~err \/ ({f.p : f \in ViewFacts(sv, FALSE)} = {f.p : f \in mf})) ELSE {})
        \cup (IF svok THEN Tag(IF err THEN "C01.atomic_on_error" ELSE "C01.tree_after",
                               ~ViewBad(sv) /\ ViewFacts(sv, FALSE) = NoData(mf))
              ELSE {})
